@@ -95,7 +95,7 @@ PairVerdict(ev) ==
     IN /\ Chk("R1", s.ok => n.ok)
        /\ Chk("R2", (n.ok /\ n.diags = <<>>) => (s.ok /\ s.diags = <<>> /\ ev.modelEq))
        /\ Chk("R3", ~ev.noIfData \/ ((~s.ok) <=> (~n.ok \/ serious)))
-       /\ Chk("R3eq", (s.ok /\ n.ok) => ev.modelEq)
+       /\ Chk("R3eq", ~ev.noIfData \/ ((s.ok /\ n.ok) => ev.modelEq))      \* (the property states this for inputs without IF_DATA)
 
 \* C07: an unknown element between the sub-elements of a block (skip events: the observed outcomes of
 \* the base document (lenient), of the document with the payload (lenient) and of the same in strict mode)
